@@ -157,6 +157,9 @@ type Config struct {
 	Checkpoints      []chaincfg.Checkpoint
 	// FFLDB, when set (verif builds only), opens the store through hook H1 with an I/O observer and limits.
 	FFLDB *FFLDBOpts
+	// WrapDB, when set, decorates the opened database before the chain gets it (fault injection at the database.DB
+	// interface: a View / Update that fails once)
+	WrapDB func(database.DB) database.DB
 }
 
 var openHooked func(dir string, net wire.BitcoinNet, create bool, o *FFLDBOpts) (database.DB, error)
@@ -198,6 +201,9 @@ func Open(dir string, cfg Config, clock *Clock) (*Node, error) {
 	}
 	if err != nil {
 		return nil, fmt.Errorf("database open/create: %w", err)
+	}
+	if cfg.WrapDB != nil {
+		db = cfg.WrapDB(db)
 	}
 	if clock == nil {
 		st := cfg.ClockStart
